@@ -1,38 +1,96 @@
 """C16 - xtl::span views cover exactly the requested sub-range; checked mode rejects bad ones.
 
- 1. TLC: Span.tla (L1: parent cells + a stack of windows [off, len, extent]; arguments are symbolic
-    mathematical integers n or SIZE_MAX-d, so the contract conditions cannot wrap) with its own
-    theorems (every view inside its parent and inside the view it was taken from, ...).
- 1b. TLC: SpanImpl.tla (L2, advisory): the precondition checks transcribed from xspan_impl.hpp with 5-bit
-    modular index arithmetic accept exactly the calls L1 accepts, for all sizes and all argument words.
- 2. S->C: TLC enumerates every (state, operation, argument) transition for parents of 0..3 (0..4)
-    cells, views of views to depth 3, offsets/counts 0..n+1, SIZE_MAX-d, dynamic_extent, static and
-    dynamic extents, in both modes; each is replayed on real xtl::span objects by a driver built with
-    -DTCB_SPAN_NO_CONTRACT_CHECKING (out-of-contract calls are never issued) and one built with
-    -DTCB_SPAN_THROW_ON_CONTRACT_VIOLATION (every bad argument must throw and change nothing).
+ 1. TLC: Span.tla (L1: parent cells + a stack of windows [off, len, extent, const]; arguments are symbolic
+    mathematical integers n or SIZE_MAX-d, so the contract conditions cannot wrap; three modes: unchecked, throwing,
+    terminate) with its own theorems.
+ 1b. TLC: SpanImpl.tla (L2, advisory): the precondition checks transcribed from xspan_impl.hpp with 5-bit modular index
+    arithmetic accept exactly the calls L1 accepts, for all sizes and all argument words.
+ 1c. TLC: SpanMode.tla: the configuration axis as a table (mode macros x NDEBUG x language level -> effective mode):
+    L1 = what the property demands (an explicit single request is honoured), the documented default, and L2 = the
+    header's #if cascade.  harness/span/mode_probe.cpp is built in all 32 configurations and reports what every
+    checked entry point does with an out-of-range argument (in child processes); SpanModeCheck.tla compares.
+ 1d. TLC: SpanTypes.tla enumerates the type-level table (result extents of every sub-view form, which constructions and
+    conversions exist, as_bytes extents, tuple protocol); rendered as one static_assert per row and compiled BEFORE
+    the drivers are built, so that a changed signature is a violation with a replay, not a driver that does not build.
+ 2. S->C: TLC enumerates every (state, operation, argument) transition for parents of 0..3 (0..4) cells, views of
+    views to depth 3, offsets/counts 0..n+1, SIZE_MAX-d, dynamic_extent, static and dynamic extents, const and
+    non-const element types; replayed on real xtl::span objects by drivers built in the configurations of BUILD
+    MATRIX below (the mode of a build's scripts is the mode the probe observed for its configuration).
  3. TLC simulation walks and seeded random scripts (parents up to 40 cells, depth 4, writes).
- Every recorded step (result + parent cells, guard cells, and for every view: extent, data()-base,
- size(), size_bytes(), empty(), end()-begin(), elements by operator[], forward and reverse
- iteration) is validated by TLC against SpanTrace.tla.
+ Every recorded step (result + parent cells, guard cells, and for every view: extent, constness, data()-base, size(),
+ size_bytes(), empty(), end()-begin(), elements by operator[], forward and reverse iteration) is validated by TLC
+ against SpanTrace.tla.  A driver that crashes, hangs or can no longer follow its script is restarted at the next
+ execution; the call it died in is recorded with the result "crash" / "desync", which L1 never allows.
 """
-import json, os, random, subprocess
+import json, os, random, re, shutil, subprocess, threading
 from concurrent.futures import ThreadPoolExecutor
-from vlib import core, tlaval
+from vlib import core, tlaval, span_types
 from vlib.core import MachineryError
 
 PID = "C16"
 HDIR = os.path.join(core.HARNESS, "span")
-MODES = {"unchecked": "-DTCB_SPAN_NO_CONTRACT_CHECKING", "throwing": "-DTCB_SPAN_THROW_ON_CONTRACT_VIOLATION"}
-# the same two L1 modes, requested explicitly in a release translation unit (-DNDEBUG): an explicit request must
-# win over the NDEBUG default ("when contract checking is enabled every out-of-range argument is rejected")
-BUILDS = {"unchecked": ["-DTCB_SPAN_NO_CONTRACT_CHECKING"], "throwing": ["-DTCB_SPAN_THROW_ON_CONTRACT_VIOLATION"],
-          "throwing-ndebug": ["-DTCB_SPAN_THROW_ON_CONTRACT_VIOLATION", "-DNDEBUG"]}
+MACRO = {"THROW": "-DTCB_SPAN_THROW_ON_CONTRACT_VIOLATION", "TERMINATE": "-DTCB_SPAN_TERMINATE_ON_CONTRACT_VIOLATION",
+         "NONE": "-DTCB_SPAN_NO_CONTRACT_CHECKING"}
+ELEMS = {0: ("int", 4), 1: ("signed char", 1), 2: ("double", 8), 3: ("rgb", 3)}
 MAXE = 5
-OBSERVERS = {"At", "Index", "Front", "Back", "Cmp", "AsBytes", "ConstFrom"}
-WRITE_PATHS = ("sub", "call", "at", "front", "back", "data", "iter", "riter")
-ALL_OPS = ["FromPtrCount", "FromPtrPair", "FromArray", "FromStdArray", "FromContainer", "MakeSpan", "Default", "ConstFrom",
-           "Copy", "Convert", "First", "Last", "Subspan", "Subspan1", "Nm", "FirstS", "LastS", "SubspanS",
-           "Index", "At", "Front", "Back", "Write", "Cmp", "AsBytes"]
+BIG_COUNTS = (1000000, 999999)    # Span.tla BigC(0), BigC(1): PTRDIFF_MAX and PTRDIFF_MAX - 1 as template arguments
+OBSERVERS = {"At", "Index", "Front", "Back", "Cmp", "AsBytes", "Bind"}
+WRITE_PATHS = ("sub", "call", "at", "front", "back", "data", "iter", "riter", "get", "wbytes", "sb")
+ALL_OPS = ["FromPtrCount", "FromPtrPair", "FromArray", "FromStdArray", "FromContainer", "MakeSpan", "Deduce", "Default",
+           "Copy", "Convert", "First", "Last", "Subspan", "Subspan1", "Nm", "FirstS", "LastS", "SubspanS", "NmS",
+           "Index", "At", "Front", "Back", "Bind", "Write", "Cmp", "AsBytes"]
+MAX_REPORT = 10          # distinct violations reported; the rest are only counted
+CXX17_ONLY_OPS = ("Deduce", "Bind")
+
+
+# ------------------------------------------------------------------ build matrix
+class Bld:
+    """One way of compiling the driver: a point of the property's configuration axis (mode macros x NDEBUG x language
+    level) plus the axes the property leaves open (element type, optimisation level, compiler)."""
+
+    def __init__(self, name, req, ndebug, cpp, elem=0, opt="-O1", asan=True, cxx=None, share="sample"):
+        self.name, self.req, self.ndebug, self.cpp, self.elem, self.opt, self.asan, self.cxx, self.share = \
+            name, list(req), ndebug, cpp, elem, opt, asan, cxx, share
+        self.mode = None      # filled from the mode probe
+        self.feats = None     # filled from driver --caps
+
+    def flags(self):
+        return ["-std=c++%d" % self.cpp, self.opt, "-g1", "-DSPAN_ELEM=%d" % self.elem] + [MACRO[m] for m in self.req] + (["-DNDEBUG"] if self.ndebug else [])
+
+    def key(self):
+        return (tuple(sorted(self.req)), self.ndebug, self.cpp)
+
+
+def build_matrix(quick, have_clang):
+    """quick: the three routes the property names first (no checking, throwing, the default = terminate) in full, plus
+    one build per remaining (macro, NDEBUG) combination that changes the effective mode or could (the explicit request
+    under NDEBUG, the NDEBUG default), alternating language level, element type and optimisation level.
+    thorough: all 16 configurations {none, NONE, THROW, TERMINATE} x {NDEBUG, not} x {C++14, C++17}, plus clang++."""
+    b = [Bld("nocheck-14", ["NONE"], False, 14, 0, "-O1", True, share="full"),
+         Bld("throw-14", ["THROW"], False, 14, 0, "-O1", True, share="main"),
+         Bld("default-14", [], False, 14, 0, "-O0", False, share="main"),
+         Bld("throw-nd-17", ["THROW"], True, 17, 2, "-O2", True),
+         Bld("default-nd-14", [], True, 14, 1, "-O1", True),
+         Bld("term-nd-17", ["TERMINATE"], True, 17, 3, "-O2", False)]
+    if not quick:
+        b += [Bld("nocheck-17", ["NONE"], False, 17, 3, "-O2", True),
+              Bld("nocheck-nd-14", ["NONE"], True, 14, 2, "-O0", True),
+              Bld("nocheck-nd-17", ["NONE"], True, 17, 1, "-O1", True),
+              Bld("throw-17", ["THROW"], False, 17, 1, "-O0", True),
+              Bld("throw-nd-14", ["THROW"], True, 14, 3, "-O1", True),
+              Bld("term-14", ["TERMINATE"], False, 14, 2, "-O1", False),
+              Bld("term-17", ["TERMINATE"], False, 17, 0, "-O0", False),
+              Bld("term-nd-14", ["TERMINATE"], True, 14, 1, "-O0", False),
+              Bld("default-17", [], False, 17, 3, "-O2", False),
+              Bld("default-nd-17", [], True, 17, 0, "-O2", True)]
+        if have_clang:
+            b += [Bld("throw-14-clang", ["THROW"], False, 14, 0, "-O1", True, cxx="clang++"),
+                  Bld("nocheck-17-clang", ["NONE"], True, 17, 0, "-O2", True, cxx="clang++")]
+    return b
+
+
+def all_builds():
+    return {b.name: b for b in build_matrix(False, True)}
 
 
 def S(n):
@@ -43,46 +101,61 @@ def H(d):
     return {"t": "h", "v": d}
 
 
-def gnu_compiler():
-    """g++ (not clang++) cannot compile first<0>() / last<0>() (see harness/span/driver.cpp)."""
+def compiler_is_gnu(cxx):
     try:
-        out = subprocess.run([core.CXX, "--version"], stdout=subprocess.PIPE, stderr=subprocess.STDOUT, text=True).stdout
+        out = subprocess.run([cxx or core.CXX, "--version"], stdout=subprocess.PIPE, stderr=subprocess.STDOUT, text=True).stdout
     except Exception:
         return True
     return "clang" not in out.lower()
 
 
-def supported(ev, gnu):
-    if gnu and ev["op"] in ("FirstS", "LastS") and ev["a"].get("C") == 0:
+def supported(ev, feats):
+    """calls a build cannot be asked for: first<0>()/last<0>() under g++ (ambiguous braced return in the header),
+    C++17-only forms in a C++14 build"""
+    op, a = ev["op"], ev["a"]
+    if not feats["static_zero"]:
+        if op in ("FirstS", "LastS") and a.get("C") == 0:
+            return False
+        if op == "NmS" and a.get("fn") in ("first", "last") and a.get("C") == 0:
+            return False
+    if not feats["cpp17"]:
+        if op in CXX17_ONLY_OPS or (op == "Write" and a.get("path") == "sb"):
+            return False
+    if op == "Deduce" and not feats.get("ctad"):
         return False
     return True
 
 
-def reset_event(mode):
-    return {"op": "Reset", "a": {"mode": mode}}
+def reset_event(bld):
+    return {"op": "Reset", "a": {"mode": bld.mode, "esz": ELEMS[bld.elem][1], "bld": bld.name}}
 
 
 # ------------------------------------------------------------------ TLC -> scripts (S->C)
-def emitted(out):
+def emitted(out, tag="@E@"):
     res = []
     for line in out.splitlines():
-        if line.startswith('"@E@'):
+        if line.startswith('"' + tag):
             res.append(json.loads(json.loads(line)[3:]))
     return res
 
 
 def setup_events(pre, rnd):
-    """Events that bring the driver into abstract state pre = {mk, parent, views}."""
+    """Events that bring the driver into abstract state pre = {mk, parent, views}: consecutive views differ by one call."""
     evs = [{"op": "Mem", "a": {"kind": pre["mk"], "cells": pre["parent"]}}]
     vs = pre["views"]
     for j, v in enumerate(vs):
         if j == 0:
-            evs.append({"op": rnd.choice(["FromPtrCount", "FromPtrPair"]), "a": {"po": v["off"], "cnt": v["len"], "ext": v["ext"]}})
+            evs.append({"op": rnd.choice(["FromPtrCount", "FromPtrPair"]), "a": {"po": v["off"], "cnt": v["len"], "ext": v["ext"], "c": v["c"]}})
             continue
         p = vs[j - 1]
         o, l = v["off"] - p["off"], v["len"]
-        if v["ext"] != -1:
-            evs.append({"op": "SubspanS", "a": {"s": j, "O": o, "C": v["ext"]}})
+        if v["c"] != p["c"]:
+            evs.append({"op": "Convert", "a": {"s": j, "ext": v["ext"], "c": v["c"]}})
+        elif v["ext"] != -1:
+            if (o, l, v["ext"]) == (0, p["len"], p["ext"]) and rnd.random() < 0.5:
+                evs.append({"op": "Copy", "a": {"s": j, "how": rnd.choice(["ctor", "assign", "make_span"])}})
+            else:
+                evs.append({"op": "SubspanS", "a": {"s": j, "O": o, "C": v["ext"]}})
         elif o == 0 and rnd.random() < 0.3:
             evs.append({"op": "First", "a": {"s": j, "c": S(l)}})
         elif o + l == p["len"] and rnd.random() < 0.4:
@@ -95,10 +168,12 @@ def setup_events(pre, rnd):
     return evs
 
 
-def edge_scripts(edges, mode, rnd, gnu, limit=None):
+def edge_scripts(edges, bld, rnd, limit=None):
+    """One execution per source state: set the state up, then every call out of it (observers first; after a call that
+    may have changed the state it is set up again)."""
     by_src = {}
     for e in edges:
-        if e["m"] != mode or not supported(e["l"], gnu):
+        if not supported(e["l"], bld.feats):
             continue
         by_src.setdefault(json.dumps(e["p"], sort_keys=True), []).append(e["l"])
     total = sum(len(v) for v in by_src.values())
@@ -108,12 +183,12 @@ def edge_scripts(edges, mode, rnd, gnu, limit=None):
         pre = json.loads(pj)
         calls = by_src[pj]
         if keep < 1.0:
-            calls = [c for c in calls if rnd.random() < keep] or calls[:1]
-        # calls that leave the state alone first (observers, and in throwing mode every rejected call:
-        # they are recognised after the fact by the spec, here we simply re-establish the state after
-        # anything that is not an observer)
+            # calls that only this kind of build can make (C++17 forms) are never sampled away
+            calls = [c for c in calls if rnd.random() < keep or c["op"] in CXX17_ONLY_OPS or (c["op"] == "Write" and c["a"].get("path") == "sb")]
+            if not calls:
+                continue
         calls.sort(key=lambda c: c["op"] not in OBSERVERS)
-        lines.append(reset_event(mode))
+        lines.append(reset_event(bld))
         lines.extend(setup_events(pre, rnd))
         dirty = False
         for c in calls:
@@ -125,35 +200,41 @@ def edge_scripts(edges, mode, rnd, gnu, limit=None):
     return lines, taken
 
 
-def sim_scripts(simdir, gnu):
-    out, n = {"unchecked": [], "throwing": []}, 0
+def sim_walks(simdir):
+    """{checking: [walk, ...]}: the walks of Span_sim.cfg, as lists of calls; a walk made in throwing mode is a walk of
+    every checking mode (the enabled calls are the same), one made in unchecked mode stays inside the contract"""
+    out = {True: [], False: []}
     for fn in sorted(os.listdir(simdir)):
         states = tlaval.parse_sim_trace(os.path.join(simdir, fn))
         if len(states) < 2:
             continue
-        mode = states[0]["mode"]
-        lines = out[mode]
-        lines.append(reset_event(mode))
-        for s in states[1:]:
-            ev = {"op": s["last"]["op"], "a": s["last"]["a"]}
-            if not supported(ev, gnu):
+        out[states[0]["mode"] != "unchecked"].append([{"op": s["last"]["op"], "a": s["last"]["a"]} for s in states[1:]])
+    return out
+
+
+def sim_script(walks, bld):
+    lines = []
+    for w in walks:
+        lines.append(reset_event(bld))
+        for ev in w:
+            if not supported(ev, bld.feats):
                 break
             lines.append(ev)
-        n += 1
-    return out, n
+    return lines
 
 
 # ------------------------------------------------------------------ random scripts (C->S)
 class Gen:
-    """Random script generator.  Shadow state: number of cells, memory kind and (len, ext) of every
+    """Random script generator.  Shadow state: number of cells, memory kind and (len, ext, const) of every
     stacked view - what is needed to stay inside the preconditions in unchecked mode and inside
     the instantiated static extents; it predicts no results."""
 
-    def __init__(self, rnd, mode, gnu):
-        self.r, self.mode, self.gnu = rnd, mode, gnu
+    def __init__(self, rnd, bld):
+        self.r, self.feats = rnd, bld.feats
         self.n, self.kind = 0, "heap"
-        self.v = []          # [len, ext]
-        self.checked = mode == "throwing"
+        self.v = []          # [len, ext, c]
+        self.checked = bld.mode != "unchecked"
+        self.lo = 0 if bld.feats["static_zero"] else 1
 
     def ev(self, op, **a):
         return {"op": op, "a": a or {"z": 0}}
@@ -168,8 +249,11 @@ class Gen:
             return S(lim + r.choice([1, 1, 2, 7]))
         return S(r.choice([0, lim, max(lim - 1, 0), r.randrange(0, lim + 1)]))
 
-    def push(self, s, ln, ext):
-        self.v = self.v[:s] + [[ln, ext]]
+    def push(self, s, ln, ext, c):
+        self.v = self.v[:s] + [[ln, ext, c]]
+
+    def memext(self):
+        return -1 if self.kind in ("vector", "box") else self.n
 
     def step(self):
         r = self.r
@@ -177,15 +261,16 @@ class Gen:
         for _ in range(80):
             c = r.random()
             if c < 0.05 or (not self.v and c < 0.3):
-                kind = r.choice(["heap", "heap", "vector", "carray", "stdarray"])
+                kind = r.choice(["heap", "heap", "vector", "box", "carray", "stdarray"])
                 n = r.choice([0, 1, 2, 3, 4, 5]) if kind in ("carray", "stdarray") else r.choice([0, 1, 2, 3, 5, 8, 17, 40])
                 if kind == "carray" and n == 0:
                     n = 1
                 self.kind, self.n, self.v = kind, n, []
                 return self.ev("Mem", kind=kind, cells=[r.randint(-99, 99) for _ in range(n)])
             if c < 0.14 or not self.v:
-                t = r.randrange(6)
+                t = r.randrange(7)
                 n = self.n
+                cst = r.random() < 0.3
                 if t <= 1:
                     po = r.randrange(0, n + 1); cnt = r.randrange(0, n - po + 1)
                     ext = -1
@@ -194,75 +279,88 @@ class Gen:
                         if not bad and ext != cnt:
                             ext = -1
                     if ext == -1 or ext == cnt:
-                        self.v = [[cnt, ext]]
-                    return self.ev(r.choice(["FromPtrCount", "FromPtrPair"]), po=po, cnt=cnt, ext=ext)
+                        self.v = [[cnt, ext, cst]]
+                    return self.ev(r.choice(["FromPtrCount", "FromPtrPair"]), po=po, cnt=cnt, ext=ext, c=cst)
                 if t == 2 and self.kind in ("carray", "stdarray"):
                     ext = r.choice([-1, n])
-                    self.v = [[n, ext]]
-                    return self.ev("FromArray" if self.kind == "carray" else "FromStdArray", ext=ext)
-                if t == 3 and self.kind == "vector":
+                    self.v = [[n, ext, cst]]
+                    return self.ev("FromArray" if self.kind == "carray" else "FromStdArray", ext=ext, c=cst)
+                if t == 3 and self.kind in ("vector", "box"):
                     ext = -1
                     if r.random() < 0.4:
                         ext = n if (n <= MAXE and r.random() < 0.6) else (r.randrange(0, MAXE + 1) if bad else -1)
                     if ext == -1 or ext == n:
-                        self.v = [[n, ext]]
-                    return self.ev("FromContainer", ext=ext)
+                        self.v = [[n, ext, cst]]
+                    return self.ev("FromContainer", ext=ext, c=cst)
                 if t == 4 and self.kind != "heap":
-                    self.v = [[n, -1 if self.kind == "vector" else n]]
-                    return self.ev("MakeSpan")
+                    self.v = [[n, self.memext(), cst]]
+                    return self.ev("MakeSpan", c=cst)
                 if t == 5 and r.random() < 0.3:
                     ext = r.choice([-1, 0])
-                    self.v = [[0, ext]]
-                    return self.ev("Default", ext=ext)
+                    self.v = [[0, ext, cst]]
+                    return self.ev("Default", ext=ext, c=cst)
+                if t == 6 and self.kind != "heap" and self.feats.get("ctad"):
+                    self.v = [[n, self.memext(), cst]]
+                    return self.ev("Deduce", c=cst)
                 continue
             s = r.randrange(1, len(self.v) + 1)
             if len(self.v) >= 4 and r.random() < 0.5:
                 s = r.randrange(1, 4)
-            ln, ext = self.v[s - 1]
+            ln, ext, cst = self.v[s - 1]
             if c < 0.17 and self.kind != "heap":
-                fn = r.choice(["first", "last", "subspan", "subspan1"])
                 n = self.n
+                if r.random() < 0.35:
+                    # the template forms first<C>(t), last<C>(t), subspan<O, C>(t)
+                    fn = r.choice(["first", "last", "subspan"])
+                    mext = self.memext()
+                    if fn != "subspan":
+                        hi = MAXE if bad else min(MAXE, n)
+                        if hi < self.lo:
+                            continue
+                        C = r.choice([self.lo, hi, r.randrange(self.lo, hi + 1)])
+                        if C <= n:
+                            self.v = [[C, C, False]]
+                        return self.ev("NmS", fn=fn, O=0, C=C)
+                    O = r.randrange(0, MAXE + 2) if bad else r.randrange(0, min(n, MAXE + 1) + 1)
+                    C = r.choice([-1, -1] + list(range(0, MAXE + 1))) if bad else r.choice([-1] + list(range(0, min(MAXE, max(n - O, 0)) + 1)))
+                    rext = C if C != -1 else (mext - O if mext != -1 else -1)
+                    if rext < -1 or rext > MAXE:
+                        continue
+                    ok = O <= n and (C == -1 or C <= n - O)
+                    if not ok and not bad:
+                        continue
+                    if ok:
+                        self.v = [[(n - O) if C == -1 else C, rext, False]]
+                    return self.ev("NmS", fn=fn, O=O, C=C)
+                fn = r.choice(["first", "last", "subspan", "subspan1"])
                 o = S(0) if fn in ("first", "last") else self.size_arg(n, bad)
                 rest = n - o["v"] if (o["t"] == "s" and o["v"] <= n) else 0
                 cc = H(0) if fn == "subspan1" or (fn == "subspan" and r.random() < 0.2) else self.size_arg(rest if fn == "subspan" else n, bad)
                 if o["t"] == "s" and o["v"] <= n:
                     if cc == H(0) and fn in ("subspan", "subspan1"):
-                        self.v = [[n - o["v"], -1]]
+                        self.v = [[n - o["v"], -1, False]]
                     elif cc["t"] == "s" and cc["v"] <= n - o["v"]:
-                        self.v = [[cc["v"], -1]]
+                        self.v = [[cc["v"], -1, False]]
                 return self.ev("Nm", fn=fn, o=o, c=cc)
-            if c < 0.20:
-                how = r.choice(["span", "make_span"] + (["stdarray", "make_stdarray"] if self.kind == "stdarray" else []) + (["container", "make_container"] if self.kind == "vector" else []))
-                if how.startswith("make_"):
-                    return self.ev("ConstFrom", how=how, s=s if how == "make_span" else 0, ext=-1)
-                if how == "span":
-                    return self.ev("ConstFrom", how=how, s=s, ext=r.choice([-1, ext]))
-                if how == "stdarray":
-                    return self.ev("ConstFrom", how=how, s=0, ext=r.choice([-1, self.n]))
-                e = -1
-                if r.random() < 0.4:
-                    e = self.n if self.n <= MAXE else -1
-                    if bad and r.random() < 0.4:
-                        e = r.randrange(0, MAXE + 1)
-                return self.ev("ConstFrom", how=how, s=0, ext=e)
             if c < 0.25:
-                if r.random() < 0.5:
-                    self.push(s, ln, ext)
-                    return self.ev("Copy", s=s, how=r.choice(["ctor", "assign"]))
+                if r.random() < 0.4:
+                    self.push(s, ln, ext, cst)
+                    return self.ev("Copy", s=s, how=r.choice(["ctor", "assign", "make_span"]))
                 e = r.choice([-1, ext])
-                self.push(s, ln, e)
-                return self.ev("Convert", s=s, ext=e)
+                tc = True if cst else r.random() < 0.5
+                self.push(s, ln, e, tc)
+                return self.ev("Convert", s=s, ext=e, c=tc)
             if c < 0.50:
                 t = r.randrange(4)
                 if t == 0 or t == 1:
                     a = self.size_arg(ln, bad)
                     if a["t"] == "s" and a["v"] <= ln:
-                        self.push(s, a["v"], -1)
+                        self.push(s, a["v"], -1, cst)
                     return self.ev("First" if t == 0 else "Last", s=s, c=a)
                 if t == 2:
                     o = self.size_arg(ln, bad)
                     if o["t"] == "s" and o["v"] <= ln:
-                        self.push(s, ln - o["v"], -1)
+                        self.push(s, ln - o["v"], -1, cst)
                     return self.ev("Subspan1", s=s, o=o)
                 o = self.size_arg(ln, bad)
                 rest = ln - o["v"] if (o["t"] == "s" and o["v"] <= ln) else 0
@@ -273,34 +371,38 @@ class Gen:
                     o, cc = S(k), H(max(k - 1 - r.randrange(0, 2), 0))
                 if o["t"] == "s" and o["v"] <= ln:
                     if cc == H(0):
-                        self.push(s, ln - o["v"], -1)
+                        self.push(s, ln - o["v"], -1, cst)
                     elif cc["t"] == "s" and cc["v"] <= ln - o["v"]:
-                        self.push(s, cc["v"], -1)
+                        self.push(s, cc["v"], -1, cst)
                 return self.ev("Subspan", s=s, o=o, c=cc)
             if c < 0.64:
                 t = r.randrange(3)
-                lo = 1 if self.gnu else 0
+                lo = self.lo
                 if t <= 1:
                     hi = MAXE if bad else min(MAXE, ln)
                     if hi < lo:
                         continue
                     C = r.choice([lo, hi, r.randrange(lo, hi + 1), min(ln, MAXE) if min(ln, MAXE) >= lo else lo])
+                    if bad and r.random() < 0.08:
+                        C = r.choice(BIG_COUNTS)          # PTRDIFF_MAX, PTRDIFF_MAX - 1 as template arguments
                     if C <= ln:
-                        self.push(s, C, C)
+                        self.push(s, C, C, cst)
                     return self.ev("FirstS" if t == 0 else "LastS", s=s, C=C)
                 O = r.randrange(0, MAXE + 2) if bad else r.randrange(0, min(ln, MAXE + 1) + 1)
                 C = r.choice([-1, -1] + list(range(0, MAXE + 1))) if bad else r.choice([-1] + list(range(0, min(MAXE, max(ln - O, 0)) + 1)))
+                if bad and r.random() < 0.08:
+                    C = r.choice(BIG_COUNTS)
                 rext = C if C != -1 else (ext - O if ext != -1 else -1)
-                if rext < -1 or rext > MAXE:
+                if rext < -1 or (rext > MAXE and C not in BIG_COUNTS):
                     continue
                 ok = O <= ln and (C == -1 or C <= ln - O)
                 if not ok and not bad:
                     continue
                 if ok:
-                    self.push(s, (ln - O) if C == -1 else C, rext)
+                    self.push(s, (ln - O) if C == -1 else C, rext, cst)
                 return self.ev("SubspanS", s=s, O=O, C=C)
             if c < 0.76:
-                t = r.randrange(4)
+                t = r.randrange(5)
                 if t == 0:
                     return self.ev("At", s=s, i=self.size_arg(ln, True))
                 if t == 1:
@@ -315,28 +417,39 @@ class Gen:
                     if ln == 0:
                         continue
                     return self.ev("Index", s=s, how=how, i=S(r.randrange(ln)))
+                if t == 4:
+                    if self.feats["cpp17"] and 1 <= ext <= 3:
+                        return self.ev("Bind", s=s)
+                    continue
                 if ln == 0 and not bad:
                     continue
                 return self.ev("Front" if t == 2 else "Back", s=s)
             if c < 0.90:
-                if ln == 0:
+                if ln == 0 or cst:
                     continue
                 path = r.choice(WRITE_PATHS)
                 i = 0 if path == "front" else ln - 1 if path == "back" else r.choice([0, ln - 1, r.randrange(ln)])
+                if path == "get" and i > MAXE:
+                    i = r.randrange(0, min(ln, MAXE + 1))
+                if path == "sb" and not (self.feats["cpp17"] and 1 <= ext <= 3):
+                    continue
                 return self.ev("Write", s=s, path=path, i=i, x=r.randint(-99, 99))
             if c < 0.96:
                 return self.ev("Cmp", s=s, t=r.randrange(1, len(self.v) + 1))
-            return self.ev("AsBytes", s=s, w=r.randrange(2))
+            w = r.randrange(2)
+            if w and cst:
+                continue
+            return self.ev("AsBytes", s=s, w=w)
         self.kind, self.n, self.v = "heap", 0, []
         return self.ev("Mem", kind="heap", cells=[])
 
 
-def random_script(seed, mode, gnu, nexec, nops):
-    rnd = random.Random("%d/%s" % (seed, mode))
+def random_script(seed, bld, nexec, nops):
+    rnd = random.Random("%d/%s" % (seed, bld.name))
     lines = []
     for _ in range(nexec):
-        g = Gen(rnd, mode, gnu)
-        lines.append(reset_event(mode))
+        g = Gen(rnd, bld)
+        lines.append(reset_event(bld))
         for _ in range(nops):
             lines.append(g.step())
     return lines
@@ -345,7 +458,7 @@ def random_script(seed, mode, gnu, nexec, nops):
 def write_script(path, lines):
     with open(path, "w") as f:
         for l in lines:
-            f.write(json.dumps(l, separators=(",", ":")) + "\n")
+            f.write((l if isinstance(l, str) else json.dumps(l, separators=(",", ":"))) + "\n")
 
 
 def chunk_by_reset(lines, nchunks):
@@ -357,25 +470,215 @@ def chunk_by_reset(lines, nchunks):
     return [lines[a:b] for a, b in zip(cuts, cuts[1:] + [len(lines)])]
 
 
-def run_script(ctx, drv, script_path, trace_path):
+# ------------------------------------------------------------------ running a driver on a script
+def run_script(ctx, drv, lines, trace_path, isolate=False, stats=None):
+    """Feeds the script to the driver.  If the driver ends before the script does (crash, sanitizer report, a call that
+    does not return, a script it cannot follow) the call it ended in is recorded with the result exc = "crash" or
+    "desync" - which no L1 action yields - and a fresh driver continues at the next Reset, so that at most the rest of
+    one execution is lost.  Returns the number of restarts."""
     env = dict(os.environ); env.update(core.ASAN_ENV)
-    with open(script_path) as fin, open(trace_path, "w") as fout:
-        p = subprocess.run([drv], stdin=fin, stdout=fout, stderr=subprocess.PIPE, env=env, timeout=1800)
-    if p.returncode == 3:
-        # The driver could not follow the script any further ("no such view"): either the script is wrong, or an
-        # earlier call did not do what L1 says (e.g. a valid subspan threw, so the view it should have pushed does
-        # not exist).  The trace ends with a Desync event, which no spec action matches; validation then rejects
-        # the earlier, real deviation first.  A Desync that is itself the first rejection is a machinery error.
-        with open(trace_path, "a") as fout:
-            fout.write(json.dumps({"op": "Desync", "a": {"why": p.stderr.decode()[-300:]}}) + "\n")
+    argv = [drv] + (["--isolate"] if isolate else [])
+    pos, restarts = 0, 0
+    with open(trace_path, "w") as fout:
+        while pos < len(lines):
+            inp = "".join(json.dumps(l, separators=(",", ":")) + "\n" for l in lines[pos:])
+            try:
+                p = subprocess.run(argv, input=inp.encode(), stdout=subprocess.PIPE, stderr=subprocess.PIPE, env=env, timeout=1800)
+                out, err, rc = p.stdout.decode(errors="replace"), p.stderr.decode(errors="replace"), p.returncode
+            except subprocess.TimeoutExpired as ex:
+                out, err, rc = (ex.stdout or b"").decode(errors="replace"), "[driver timed out]", 124
+            good, why, kind = [], None, "crash"
+            for l in out.split("\n")[:-1] if not out.endswith("\n") else out.split("\n"):
+                if not l.strip():
+                    continue
+                if l.startswith('{"op":"Crash"') or l.startswith('{"op":"Desync"'):
+                    kind = "desync" if "Desync" in l[:16] else "crash"
+                    try:
+                        why = json.loads(l).get("why", "")
+                    except ValueError:
+                        why = l[:200]
+                    break
+                if not l.endswith("}"):
+                    break
+                good.append(l)
+            good = good[:len(lines) - pos]
+            for l in good:
+                fout.write(l + "\n")
+            k = pos + len(good)
+            if k >= len(lines):
+                break
+            # the driver ended in (or before) script line k
+            if why is None:
+                why = "driver ended with status %s: %s" % (rc, " | ".join(x.strip() for x in err.splitlines() if "ERROR" in x or "SUMMARY" in x)[:300] or err[-200:])
+            ev = dict(lines[k])
+            ev["res"] = {"exc": kind, "val": []}
+            ev["died"] = why
+            ev["st"] = {}
+            fout.write(json.dumps(ev, separators=(",", ":")) + "\n")
+            restarts += 1
+            nxt = k + 1
+            while nxt < len(lines) and lines[nxt]["op"] != "Reset":
+                nxt += 1
+            if stats is not None:
+                stats["lost_events"] = stats.get("lost_events", 0) + (nxt - k - 1)
+                stats["restarts"] = stats.get("restarts", 0) + 1
+            pos = nxt
+    return restarts
 
 
-def build_drivers(ctx, modes):
-    jobs = [{"src": os.path.join(HDIR, "driver.cpp"), "out": os.path.join(ctx.work, "span_driver_" + m), "flags": BUILDS[m]} for m in modes]
-    core.build_many(ctx, jobs)
-    return {m: os.path.join(ctx.work, "span_driver_" + m) for m in modes}
+def build_driver(ctx, bld):
+    out = os.path.join(ctx.work, "span_driver_" + bld.name)
+    core.build(ctx, os.path.join(HDIR, "driver.cpp"), out, flags=bld.flags(), asan=bld.asan, cxx=bld.cxx)
+    rc, o = core.sh([out, "--caps"], timeout=60)
+    if rc != 0:
+        raise MachineryError("driver --caps failed for %s: %s" % (bld.name, o[-500:]))
+    bld.feats = json.loads(o.strip().splitlines()[-1])
+    if bld.feats["esz"] != ELEMS[bld.elem][1]:
+        raise MachineryError("sizeof(%s) is %s on this platform, the runner assumes %s" % (ELEMS[bld.elem][0], bld.feats["esz"], ELEMS[bld.elem][1]))
+    return out
 
 
+# ------------------------------------------------------------------ 1c. the mode table
+def mode_table(ctx):
+    r = core.tlc_model_check(ctx, "SpanMode", "SpanMode.cfg", "mode selection table (macros x NDEBUG x language level): the header's #if cascade "
+                             "honours every explicit single request and gives the documented default", workers=1)
+    if r["violated"]:
+        ctx.drift.append("SpanMode.tla: the transcription of the header's mode selection does not agree with L1 / the documented default (%s); see %s"
+                         % (r["violated"], r["outfile"]))
+    rows = {}
+    for row in emitted(r["out"], "@M@"):
+        rows[(tuple(sorted(row["req"])), row["ndebug"], row["cpp"])] = row
+    if len(rows) != 32:
+        raise MachineryError("SpanMode.tla produced %d configurations, expected 32 (see %s)" % (len(rows), r["outfile"]))
+    return rows
+
+
+def probe_config(ctx, req, ndebug, cpp, opt="-O1", cxx=None, tag=""):
+    """Build and run mode_probe.cpp in one configuration; returns the observed row."""
+    name = "mode_probe_%s_%s_%d%s" % ("+".join(sorted(req)) or "none", "nd" if ndebug else "dbg", cpp, tag)
+    out = os.path.join(ctx.sub("probe"), name)
+    cmd = [cxx or core.CXX, "-std=c++%d" % cpp, opt, "-Wno-deprecated-declarations", "-I", core.INCLUDE] + [MACRO[m] for m in sorted(req)] + \
+          (["-DNDEBUG"] if ndebug else []) + [os.path.join(HDIR, "mode_probe.cpp"), "-o", out]
+    rc, o = core.sh(cmd, timeout=300)
+    row = {"req": sorted(req), "ndebug": ndebug, "cpp": cpp, "opt": opt, "cmd": " ".join(cmd)}
+    if rc != 0:
+        row.update(observed="does-not-compile", entries={}, detail=" | ".join(l.strip() for l in o.splitlines() if "error" in l)[:600])
+        return row
+    rc, o = core.sh([out], timeout=120)
+    try:
+        d = json.loads(o.strip().splitlines()[-1])
+    except Exception:
+        row.update(observed="probe-failed", entries={}, detail=o[-300:])
+        return row
+    outcomes = sorted(set(d["entries"].values()))
+    row["entries"] = d["entries"]
+    row["macros_after_include"] = d["macros_after_include"]
+    row["observed"] = outcomes[0] if len(outcomes) == 1 else "mixed(" + ",".join("%s=%s" % kv for kv in sorted(d["entries"].items())) + ")"
+    return row
+
+
+def check_modes(ctx, table):
+    """All 32 configurations of SpanMode.tla: what the header does (probe) against the table (TLC)."""
+    cfgs = sorted(table)
+    opts = ["-O0", "-O1", "-O2"]
+    with ThreadPoolExecutor(max_workers=core.NCPU) as ex:
+        rows = list(ex.map(lambda ic: probe_config(ctx, ic[1][0], ic[1][1], ic[1][2], opt=opts[ic[0] % 3]), enumerate(cfgs)))
+    observed = {}
+    path = os.path.join(ctx.sub("probe"), "modes.ndjson")
+    pending = rows
+    total, nviol, sigs = 0, 0, set()
+    while pending:
+        write_script(path, pending)
+        r = core.tlc(ctx, "SpanModeCheck", "SpanModeCheck.cfg", name="mode-rows", workers=1, env={"TRACE": path, "EXPLAIN": "0"}, timeout=300)
+        matched = max(0, r["depth"] - 1)
+        total += matched
+        for m in re.finditer(r'<<\s*"DRIFT",\s*(\d+),\s*"([^"]*)",\s*(.*?)>>', r["out"], re.S):
+            row = pending[int(m.group(1)) - 1]
+            msg = "contract-mode selection: macros {%s}%s, C++%d: the header gives mode '%s'; %s" % (
+                ",".join(row["req"]), " + NDEBUG" if row["ndebug"] else "", row["cpp"], m.group(2), re.sub(r"\s+", " ", m.group(3)))
+            if msg not in ctx.drift:
+                ctx.drift.append(msg)
+        if matched >= len(pending):
+            break
+        bad = pending[matched]
+        exp = table[(tuple(bad["req"]), bad["ndebug"], bad["cpp"])]
+        nviol += 1
+        sig = (tuple(bad["req"]), re.sub(r"=\w+", "", bad["observed"]))
+        if sig in sigs or len(sigs) >= 4:
+            pending = pending[matched + 1:]
+            continue
+        sigs.add(sig)
+        ctx.violation("contract-checking mode: a translation unit that defines {%s}%s (C++%d, %s) must be in mode %s, but its checked entry points behave as: %s %s"
+                      % (",".join(bad["req"]) or "no mode macro", " and NDEBUG" if bad["ndebug"] else "", bad["cpp"], bad["opt"],
+                         "/".join(exp["allowed"]), bad["observed"], bad.get("detail", "")),
+                      replay_lines=[{"probe": "mode", "req": bad["req"], "ndebug": bad["ndebug"], "cpp": bad["cpp"], "opt": bad["opt"]}])
+        pending = pending[matched + 1:]
+    for row in rows:
+        observed[(tuple(row["req"]), row["ndebug"], row["cpp"])] = row["observed"]
+    ctx.cov["evaluations"] += total
+    ctx.notes["mode_probe_configurations"] = len(rows)
+    ctx.notes["mode_probe_configurations_rejected"] = nviol
+    ctx.notes["mode_probe_entry_points"] = len(rows[0].get("entries", {})) if rows else 0
+    ctx.notes["mode_table_observed"] = {"%s%s/c++%d" % ("+".join(k[0]) or "none", "+NDEBUG" if k[1] else "", k[2]): v for k, v in sorted(observed.items())}
+    return observed
+
+
+# ------------------------------------------------------------------ 1d. the type table
+def type_table(ctx, quick):
+    r = core.tlc_model_check(ctx, "SpanTypes", "SpanTypes.cfg", "type-level table (result extents of all sub-view forms, constructions, conversions, "
+                             "as_bytes, tuple protocol)", workers=1)
+    if r["violated"]:
+        raise MachineryError("SpanTypes.tla violates its own sanity invariant (oracle bug), see %s" % r["outfile"])
+    rows, seen = [], set()
+    for row in emitted(r["out"], "@T@"):
+        k = json.dumps(row, sort_keys=True)
+        if k not in seen:
+            seen.add(k)
+            rows.append(row)
+    rows.sort(key=lambda x: json.dumps(x, sort_keys=True))
+    if len(rows) < 1000:
+        raise MachineryError("SpanTypes.tla produced only %d rows (see %s)" % (len(rows), r["outfile"]))
+    tdir = ctx.sub("types")
+    confs = [("c++14", ["-DTCB_SPAN_THROW_ON_CONTRACT_VIOLATION"], None), ("c++17", ["-DTCB_SPAN_NO_CONTRACT_CHECKING"], None)]
+    if not quick:
+        confs += [("c++14", ["-DNDEBUG"], None), ("c++17", [], None)]
+        if shutil.which("clang++"):
+            confs.append(("c++17", ["-DTCB_SPAN_THROW_ON_CONTRACT_VIOLATION"], "clang++"))
+    nbad = 0
+    reported = set()
+    for i, (std, fl, cxx) in enumerate(confs):
+        src = os.path.join(tdir, "types_%d.cpp" % i)
+        cmdtail = ["-std=" + std, "-fsyntax-only", "-Wno-deprecated-declarations", "-ftemplate-backtrace-limit=0", "-I", core.INCLUDE] + fl
+        where = span_types.render(rows, src, note="compile: %s %s" % (cxx or core.CXX, " ".join(cmdtail)))
+        rc, o = core.sh([cxx or core.CXX] + cmdtail + [src], timeout=600)
+        ctx.cov["evaluations"] += len(rows)
+        if rc == 0:
+            continue
+        bad, msgs = span_types.failing_rows(src, o, where)
+        if not bad:
+            raise MachineryError("the type table does not compile (%s %s) and no row could be blamed:\n%s" % (std, " ".join(fl), o[-3000:]))
+        for bi in bad:
+            row = rows[bi]
+            sig = (row["k"], row["lvl"], row.get("fn"), row.get("src"))
+            text = "type table row fails (%s %s%s): %s  [%s]  compiler: %s" % (
+                std, " ".join(fl), " " + cxx if cxx else "", json.dumps(row, sort_keys=True), span_types.expr(row), msgs.get(bi, "static assertion failed")[:300])
+            if row["lvl"] == "a":
+                if sig not in reported:
+                    ctx.drift.append(text)
+            else:
+                nbad += 1
+                if sig not in reported and nbad <= 3 * MAX_REPORT:
+                    os.makedirs(ctx.replays, exist_ok=True)
+                    rp = os.path.join(ctx.replays, "type_row_%s_%d_%d.cpp" % (row["k"], i, bi))
+                    span_types.render([row], rp, note="compile: %s %s" % (cxx or core.CXX, " ".join(cmdtail)))
+                    ctx.violation(text, replay_path=rp)
+            reported.add(sig)
+    ctx.notes["type_table_rows"] = len(rows)
+    ctx.notes["type_table_configurations"] = len(confs)
+    ctx.notes["type_table_failing_verdict_rows"] = nbad
+
+
+# ------------------------------------------------------------------ verdict bookkeeping
 def classify(findings):
     def f(ev, execution):
         for k in findings:
@@ -386,18 +689,29 @@ def classify(findings):
     return f
 
 
-def dedupe_violations(ctx):
-    """The same failing call is usually met from many source states: report it once."""
-    import re
-    seen, keep = set(), []
-    for path, text in ctx.violations:
-        m = re.search(r'\{"op":"(\w+)".*?"a":(\{.*?\}),"res"', text)
-        sig = (m.group(1), m.group(2)) if m else text[:200]
-        if sig in seen:
-            try:
-                os.remove(path)
-            except OSError:
-                pass
+def signature(text):
+    m = re.search(r'\{"op":"(\w+)".*?"a":(\{.*?\}),(?:"by":"\w+",)?"res":\{"exc":"(\w+)"', text)
+    if not m:
+        return text[:200]
+    try:
+        a = json.loads(m.group(2))
+    except ValueError:
+        a = {}
+    return (m.group(1), a.get("fn"), a.get("how"), a.get("path"), m.group(3))
+
+
+def dedupe_violations(ctx, keep_first=0):
+    """The same failing call is usually met from many source states and with many arguments: report one per
+    (operation, variant, observed outcome), at most MAX_REPORT in all."""
+    seen, keep = set(), list(ctx.violations[:keep_first])
+    for path, text in ctx.violations[keep_first:]:
+        sig = signature(text)
+        if sig in seen or len(keep) >= MAX_REPORT + keep_first:
+            if path.endswith(".ndjson"):
+                try:
+                    os.remove(path)
+                except OSError:
+                    pass
             continue
         seen.add(sig)
         keep.append((path, text))
@@ -405,17 +719,46 @@ def dedupe_violations(ctx):
     ctx.violations[:] = keep
 
 
+# ------------------------------------------------------------------ replay / selftest
 def replay(ctx, path):
-    """./verif replay C16 <file>: re-run the recorded calls on the current tree and validate."""
+    """./verif replay C16 <file>: re-run the recorded calls (or probe, or type-table row) on the current tree."""
+    if path.endswith(".cpp"):
+        with open(path) as f:
+            head = f.read(600)
+        m = re.search(r"// compile: (.*)", head)
+        cmd = (m.group(1).split() if m else [core.CXX, "-std=c++14", "-fsyntax-only", "-I", core.INCLUDE])
+        for i, x in enumerate(cmd):
+            if x == "-I" and i + 1 < len(cmd):
+                cmd[i + 1] = core.INCLUDE
+        rc, o = core.sh(cmd + [path], timeout=300)
+        if rc == 0:
+            print("replay accepted: the type-table row holds on the current tree")
+            return 0
+        print("VIOLATION property=C16 replay=%s" % path)
+        print("  " + "\n  ".join(l for l in o.splitlines() if "error" in l)[:1500])
+        return 1
     lines = [l for l in core.read_ndjson(path) if "_meta" not in l]
+    if lines and "probe" in lines[0]:
+        p = lines[0]
+        table = mode_table(ctx)
+        row = probe_config(ctx, p["req"], p["ndebug"], p["cpp"], opt=p.get("opt", "-O1"))
+        allowed = table[(tuple(sorted(p["req"])), p["ndebug"], p["cpp"])]["allowed"]
+        if row["observed"] in allowed:
+            print("replay accepted: the configuration is in mode %s" % row["observed"])
+            return 0
+        print("VIOLATION property=C16 replay=%s" % path)
+        print("  mode must be one of %s, observed %s" % (allowed, row["observed"]))
+        return 1
     rs = next((l for l in lines if l["op"] == "Reset"), None)
     if rs is None:
         raise MachineryError("replay file has no Reset event: %s" % path)
-    mode = rs["a"]["mode"]
-    drv = build_drivers(ctx, [mode])[mode]
-    sp, tp = os.path.join(ctx.work, "replay.script"), os.path.join(ctx.work, "replay.ndjson")
-    write_script(sp, lines)
-    run_script(ctx, drv, sp, tp)
+    bld = all_builds().get(rs["a"].get("bld"))
+    if bld is None:
+        raise MachineryError("replay file names an unknown build: %s" % rs["a"].get("bld"))
+    bld.mode = rs["a"]["mode"]
+    drv = build_driver(ctx, bld)
+    tp = os.path.join(ctx.work, "replay.ndjson")
+    run_script(ctx, drv, lines, tp, isolate=bld.mode == "terminate")
     r = core.validate_trace(ctx, "SpanTrace", "SpanTrace.cfg", tp)
     if r["accepted"]:
         print("replay accepted: the recorded calls now conform to Span.tla")
@@ -427,26 +770,32 @@ def replay(ctx, path):
 
 def selftest(ctx):
     """./verif selftest C16: a recorded trace is accepted; with one corrupted field it is rejected at exactly
-    that event; with one event removed at the first event that no longer fits."""
-    gnu = gnu_compiler()
-    drivers = build_drivers(ctx, list(MODES))
+    that event; with one event removed at the first event that no longer fits; a driver that is made to lose
+    its script is restarted and the trace is rejected at the call it was lost in."""
     ok = True
-    for mode in MODES:
-        lines = random_script(ctx.seed, mode, gnu, 1, 400)
-        sp, tp = os.path.join(ctx.work, "st-%s.script" % mode), os.path.join(ctx.work, "st-%s.ndjson" % mode)
-        write_script(sp, lines)
-        run_script(ctx, drivers[mode], sp, tp)
+    builds = [b for b in build_matrix(True, False) if b.name in ("nocheck-14", "throw-14", "default-14")]
+    table = mode_table(ctx)
+    for b in builds:
+        b.mode = table[b.key()]["header"]
+        drv = build_driver(ctx, b)
+        lines = random_script(ctx.seed, b, 1, 400)
+        tp = os.path.join(ctx.work, "st-%s.ndjson" % b.name)
+        run_script(ctx, drv, lines, tp, isolate=b.mode == "terminate")
         r = core.validate_trace(ctx, "SpanTrace", "SpanTrace.cfg", tp, explain=False)
-        print("selftest %s: recorded trace of %d events accepted: %s" % (mode, r["total"], r["accepted"]))
+        print("selftest %s (%s): recorded trace of %d events accepted: %s" % (b.name, b.mode, r["total"], r["accepted"]))
         ok = ok and r["accepted"]
         rec = [json.loads(l) for l in open(tp) if l.strip()]
         k = 200
-        for what in ("off", "elem", "res", "drop"):
+        for what in ("off", "elem", "res", "drop", "const"):
             mod = json.loads(json.dumps(rec))
             if what == "off":
                 cand = [i for i in range(k, len(mod)) if mod[i]["st"]["views"]]
                 expect = cand[0]
                 mod[expect]["st"]["views"][-1]["off"] += 1
+            elif what == "const":
+                cand = [i for i in range(k, len(mod)) if mod[i]["st"]["views"]]
+                expect = cand[0]
+                mod[expect]["st"]["views"][-1]["c"] = not mod[expect]["st"]["views"][-1]["c"]
             elif what == "elem":
                 cand = [i for i in range(k, len(mod)) if mod[i]["st"]["mem"]]
                 expect = cand[0]
@@ -459,139 +808,243 @@ def selftest(ctx):
                 cand = [i for i in range(k, len(mod) - 1) if mod[i]["op"] == "Write" and mod[i]["st"] != mod[i - 1]["st"] and mod[i + 1]["op"] in OBSERVERS]
                 expect = cand[0]
                 del mod[expect]
-            cp = os.path.join(ctx.work, "st-%s-%s.ndjson" % (mode, what))
+            cp = os.path.join(ctx.work, "st-%s-%s.ndjson" % (b.name, what))
             write_script(cp, mod)
             rr = core.validate_trace(ctx, "SpanTrace", "SpanTrace.cfg", cp, explain=False)
             fl = rr.get("fail_line")
             good = (not rr["accepted"]) and (fl == expect if what != "drop" else fl is not None and fl >= expect)
-            print("selftest %s: corruption '%s' at event %d -> rejected at event %s: %s" % (mode, what, expect + 1, None if fl is None else fl + 1, "ok" if good else "UNEXPECTED"))
+            print("selftest %s: corruption '%s' at event %d -> rejected at event %s: %s" % (b.name, what, expect + 1, None if fl is None else fl + 1, "ok" if good else "UNEXPECTED"))
             ok = ok and good
+        # a script the driver cannot follow: a call on a view that does not exist, then a second execution
+        bad = [reset_event(b), {"op": "Mem", "a": {"kind": "heap", "cells": [1, 2, 3]}}, {"op": "First", "a": {"s": 2, "c": S(1)}},
+               {"op": "Front", "a": {"s": 1}}, reset_event(b), {"op": "Mem", "a": {"kind": "heap", "cells": [4]}},
+               {"op": "FromPtrCount", "a": {"po": 0, "cnt": 1, "ext": -1, "c": False}}, {"op": "Front", "a": {"s": 1}}]
+        tp2 = os.path.join(ctx.work, "st-%s-desync.ndjson" % b.name)
+        st = {}
+        n = run_script(ctx, drv, bad, tp2, isolate=b.mode == "terminate", stats=st)
+        rec2 = [json.loads(l) for l in open(tp2) if l.strip()]
+        good = n == 1 and len(rec2) == 7 and rec2[2]["res"]["exc"] == "desync" and rec2[-1]["res"] == {"exc": "none", "val": [4]}
+        rr = core.validate_trace(ctx, "SpanTrace", "SpanTrace.cfg", tp2, explain=False)
+        good = good and (not rr["accepted"]) and rr.get("fail_line") == 2
+        print("selftest %s: lost script -> 1 restart, Desync recorded at event 3, second execution completed, TLC rejects at event 3: %s" % (b.name, "ok" if good else "UNEXPECTED"))
+        ok = ok and good
     return 0 if ok else 2
 
 
+# ------------------------------------------------------------------ the check
 def run(ctx):
     q = ctx.quick
     findings = core.load_findings(PID)
     rnd = random.Random(ctx.seed)
-    gnu = gnu_compiler()
+    have_clang = bool(shutil.which("clang++"))
+    builds = build_matrix(q, have_clang)
 
-    # ---- 1. L1 model checking (the spec's own theorems), both modes
-    r = core.tlc_model_check(ctx, "SpanMC", "Span_mc.cfg" if q else "Span_mc_thorough.cfg",
-                             "L1 invariants (views inside parent and inside their source view) and laws", coverage=not q)
-    if r["violated"]:
-        raise MachineryError("L1 spec Span.tla violates its own theorem %s (oracle bug), see %s" % (r["violated"], r["outfile"]))
-    if not q:
-        ctx.notes["l1_action_coverage"] = {k: v for k, v in r.get("coverage", {}).items()}
-        ctx.notes["vacuous_actions"] = sorted(k for k, v in r.get("coverage", {}).items() if v[1] == 0 and k[0].isupper())
+    # ---- drivers are compiled in the background while TLC works; a build that fails is dealt with after the probes
+    built, build_err = {}, {}
 
-    # ---- 1b. L2: the run-time checks transcribed with W-bit modular arithmetic accept exactly what L1 accepts (advisory)
-    r2 = core.tlc_model_check(ctx, "SpanImpl", "SpanImpl_mc.cfg", "L2 (checks of first/last/subspan/[]/at in 5-bit modular arithmetic, "
-                              "all sizes x all argument words) agrees with the L1 contract")
-    if r2["violated"]:
-        ctx.drift.append("SpanImpl.tla does not agree with Span.tla (%s); see %s" % (r2["violated"], r2["outfile"]))
+    def bg_build():
+        def one(b):
+            try:
+                built[b.name] = build_driver(ctx, b)
+            except MachineryError as e:
+                build_err[b.name] = str(e)
+        with ThreadPoolExecutor(max_workers=max(2, core.NCPU // 2)) as ex:
+            list(ex.map(one, builds))
+    bt = threading.Thread(target=bg_build)
+    bt.start()
 
-    # ---- build the drivers from the include tree under test (two modes + the explicit request in a release TU)
-    drivers = build_drivers(ctx, list(BUILDS))
-    if gnu:
-        ctx.notes["compiler_note"] = "g++ cannot compile first<0>()/last<0>() ({data(), 0} is ambiguous); these two calls are not issued"
+    try:
+        # ---- 1. L1 model checking (the spec's own theorems), three modes
+        if os.environ.get("C16_DEV_SKIP_SPEC_MC"):      # development only (mutation experiments): the spec's own theorems do not depend on the tree
+            ctx.notes["dev"] = "spec model checking skipped"
+        r = {"violated": None, "coverage": {}} if os.environ.get("C16_DEV_SKIP_SPEC_MC") else core.tlc_model_check(ctx, "SpanMC", "Span_mc.cfg" if q else "Span_mc_thorough.cfg",
+                                 "L1 invariants (views inside parent and inside their source view, const never dropped) and laws", coverage=not q)
+        if r["violated"]:
+            raise MachineryError("L1 spec Span.tla violates its own theorem %s (oracle bug), see %s" % (r["violated"], r["outfile"]))
+        if not q and not os.environ.get("C16_DEV_SKIP_SPEC_MC"):
+            # views of views of views expanded (stacks of 4 generated): the theorems only, no replay
+            rd = core.tlc_model_check(ctx, "SpanMC", "Span_mc_depth3.cfg", "L1 theorems with stacks <= 3 expanded (MaxN = 3)", timeout=2400)
+            if rd["violated"]:
+                raise MachineryError("L1 spec Span.tla violates its own theorem %s at depth 3 (oracle bug), see %s" % (rd["violated"], rd["outfile"]))
+        if not q:
+            ctx.notes["l1_action_coverage"] = {k: v for k, v in r.get("coverage", {}).items()}
+            ctx.notes["vacuous_actions"] = sorted(k for k, v in r.get("coverage", {}).items() if v[1] == 0 and k[0].isupper() and k in ALL_OPS)
 
-    scripts = []   # (name, mode, lines)
+        # ---- 1b. L2: the run-time checks transcribed with W-bit modular arithmetic accept exactly what L1 accepts (advisory)
+        r2 = {"violated": None} if os.environ.get("C16_DEV_SKIP_SPEC_MC") else core.tlc_model_check(ctx, "SpanImpl", "SpanImpl_mc.cfg", "L2 (checks of first/last/subspan/[]/at in 5-bit modular arithmetic, "
+                                  "all sizes x all argument words) agrees with the L1 contract")
+        if r2["violated"]:
+            ctx.drift.append("SpanImpl.tla does not agree with Span.tla (%s); see %s" % (r2["violated"], r2["outfile"]))
+        if not q and not os.environ.get("C16_DEV_SKIP_SPEC_MC"):
+            # the L2 model must be able to tell: the check as it stood before the repair (offset + count <= size()) is refuted
+            r2o = core.tlc(ctx, "SpanImpl", "SpanImpl_old.cfg", name="SpanImpl-old-check-refuted")
+            if not r2o["violated"]:
+                ctx.drift.append("SpanImpl.tla no longer refutes the wrapping check offset + count <= size() (see %s)" % r2o["outfile"])
+            ctx.notes["l2_refutes_unrepaired_check"] = bool(r2o["violated"])
 
-    # ---- 2. S->C: every L1 transition in both modes
-    for mode in MODES:
-        cfg = "Span_s2c_%s%s.cfg" % (mode, "" if q else "_thorough")
-        r3 = core.tlc(ctx, "SpanMC", cfg, name="s2c-enumerate-" + cfg[:-4], heap="8g", timeout=1500)
-        if r3["violated"]:
-            raise MachineryError("s2c enumeration failed: %s" % r3["outfile"])
-        edges = emitted(r3["out"])
-        r3["out"] = ""
-        per_op = {}
-        for e in edges:
-            per_op[e["l"]["op"]] = per_op.get(e["l"]["op"], 0) + 1
-        ctx.notes["s2c_transitions_per_action_" + mode] = per_op
-        ctx.notes["actions_never_enumerated_" + mode] = sorted(set(ALL_OPS) - set(per_op))
-        lines, taken = edge_scripts(edges, mode, rnd, gnu, limit=None)
-        ctx.log("S->C %s: %d L1 transitions enumerated by TLC, %d replayed (%d script events)" % (mode, len(edges), taken, len(lines)))
-        ctx.notes["s2c_transitions_enumerated_" + mode] = len(edges)
-        ctx.notes["s2c_transitions_replayed_" + mode] = taken
-        for i, ch in enumerate(chunk_by_reset(lines, (2 if mode == "unchecked" else 6) if q else 8)):
-            scripts.append(("s2c-%s-%02d" % (mode, i), mode, ch))
+        # ---- 1c. mode selection: table + probe in all 32 configurations
+        table = mode_table(ctx)
+        observed = check_modes(ctx, table)
 
-    # ---- 2b. TLC simulation walks (writes, deeper stacks, 5 cells)
-    simdir = ctx.sub("sim")
-    nsim = 200 if q else 2000
-    core.tlc(ctx, "SpanMC", "Span_sim.cfg", name="s2c-simulate",
-             simulate="file=%s/t,num=%d" % (simdir, nsim), extra=["-depth", "40", "-seed", str(ctx.seed)], workers=4)
-    per_mode, nwalks = sim_scripts(simdir, gnu)
-    ctx.notes["s2c_simulation_walks"] = nwalks
-    for mode, lines in per_mode.items():
-        if lines:
-            scripts.append(("sim-" + mode, mode, lines))
+        # ---- 1d. type table, before anything depends on the drivers
+        type_table(ctx, q)
+        n_static = len(ctx.violations)
 
-    # ---- 3. random scripts
-    for mode in MODES:
-        nexec, nops = (150, 60) if q else (1500, 80)
-        lines = random_script(ctx.seed, mode, gnu, nexec, nops)
-        for i, ch in enumerate(chunk_by_reset(lines, 1 if q else 6)):
-            scripts.append(("rnd-%s-%d" % (mode, i), mode, ch))
+        # ---- 2. S->C enumeration (the calls enabled in a checking mode are the same for throwing and terminate)
+        edges = {}
+        for checking, cfgmode in ((False, "unchecked"), (True, "throwing")):
+            cfg = "Span_s2c_%s%s.cfg" % (cfgmode, "" if q else "_thorough")
+            r3 = core.tlc(ctx, "SpanMC", cfg, name="s2c-enumerate-" + cfg[:-4], heap="3g", timeout=2400)
+            if r3["violated"]:
+                raise MachineryError("s2c enumeration failed: %s" % r3["outfile"])
+            edges[checking] = emitted(r3["out"])
+            r3["out"] = ""
+            per_op = {}
+            for e in edges[checking]:
+                per_op[e["l"]["op"]] = per_op.get(e["l"]["op"], 0) + 1
+            ctx.notes["s2c_transitions_per_action_" + ("checking" if checking else "unchecked")] = per_op
+            ctx.notes["actions_never_enumerated_" + ("checking" if checking else "unchecked")] = sorted(set(ALL_OPS) - set(per_op))
+            ctx.notes["s2c_transitions_enumerated_" + ("checking" if checking else "unchecked")] = len(edges[checking])
 
-    # ---- the throwing scripts again on the -DNDEBUG build (random scripts, simulation walks, first S->C chunk)
-    for name, mode, lines in list(scripts):
-        if mode == "throwing" and (name.startswith("rnd-") or name.startswith("sim-") or name == "s2c-throwing-00"):
-            scripts.append((name + "-ndebug", "throwing-ndebug", lines))
+        # ---- 2b. TLC simulation walks (writes, deeper stacks, 5 cells)
+        simdir = ctx.sub("sim")
+        nsim = 200 if q else 1500
+        core.tlc(ctx, "SpanMC", "Span_sim.cfg", name="s2c-simulate",
+                 simulate="file=%s/t,num=%d" % (simdir, nsim), extra=["-depth", "40", "-seed", str(ctx.seed)], workers=min(4, core.NCPU))
+        walks = sim_walks(simdir)
+        ctx.notes["s2c_simulation_walks"] = len(walks[True]) + len(walks[False])
+    finally:
+        bt.join()
+
+    # ---- drivers: a driver that does not build against this tree is a violation only through what the probes found
+    if build_err:
+        name, err = sorted(build_err.items())[0]
+        if ctx.violations:
+            ctx.notes["driver_builds_failed"] = sorted(build_err)
+            ctx.log("driver build(s) failed (%s); reporting the %d violation(s) of the compile-time tables and probes" % (", ".join(sorted(build_err)), len(ctx.violations)))
+            dedupe_violations(ctx, keep_first=n_static)
+            return finish(ctx, q, builds)
+        raise MachineryError("the conformance driver does not build in configuration %s although the type table and the mode probes hold:\n%s" % (name, err[-5000:]))
+
+    # ---- the mode of a build's scripts is what the probe observed for its configuration (L1 allowed it, or it is already reported)
+    runnable = []
+    for b in builds:
+        obs = observed.get(b.key())
+        if obs not in ("unchecked", "throwing", "terminate") or obs not in table[b.key()]["allowed"]:
+            ctx.notes.setdefault("builds_not_run", []).append("%s: mode %s" % (b.name, obs))
+            continue
+        b.mode = obs
+        runnable.append(b)
+    if not runnable and not ctx.violations:
+        raise MachineryError("no driver configuration could be run")
+    ctx.notes["builds"] = {b.name: {"flags": " ".join(b.flags()), "compiler": b.cxx or core.CXX, "asan": b.asan, "mode": b.mode, "element": ELEMS[b.elem][0]} for b in runnable}
+    if any(not b.feats["static_zero"] for b in runnable):
+        ctx.notes["compiler_note"] = "g++ cannot compile first<0>()/last<0>() ({data(), 0} is ambiguous); these calls are not issued to g++ builds"
+    ctx.notes["from_std_array_of_const"] = "constructible" if any(b.feats.get("from_array_of_const") for b in runnable) else \
+        "span<const T>(std::array<const T, N>&) does not exist on this tree (it is not in P0122R7 either); not exercised"
+
+    # ---- scripts per build
+    scripts = []   # (wave, name, bld, lines)
+    for b in runnable:
+        checking = b.mode != "unchecked"
+        wave = 0 if b.share in ("full", "main") else 1
+        if b.share == "full" or (b.share == "main" and not q and b.mode == "throwing"):
+            limit = None
+        elif b.share == "main":
+            limit = (30000 if b.mode == "throwing" else 12000) if q else 60000
+        else:
+            limit = 3000 if q else 8000
+        lines, taken = edge_scripts(edges[checking], b, rnd, limit=limit)
+        ctx.notes.setdefault("s2c_transitions_replayed", {})[b.name] = taken
+        ctx.log("S->C %s (%s): %d of %d L1 transitions replayed (%d script events)" % (b.name, b.mode, taken, len(edges[checking]), len(lines)))
+        sl = sim_script(walks[checking], b)
+        if wave == 0:
+            nexec, nops = (120, 60) if q else (1200, 80)
+        else:
+            nexec, nops = (40, 60) if q else (300, 80)
+        rl = random_script(ctx.seed, b, nexec, nops)
+        ctx.notes.setdefault("script_events", {})[b.name] = {"s2c": len(lines), "sim": len(sl), "random": len(rl)}
+        # one list per build, cut into traces of about 25000 events (one TLC process each)
+        allb = lines + sl + rl
+        for i, ch in enumerate(chunk_by_reset(allb, max(1, min(12, len(allb) // 25000 + 1)))):
+            scripts.append((wave, "%s-%02d" % (b.name, i), b, ch))
 
     # ---- probes for open known findings
     for fnd in findings:
         if "probe" in fnd:
-            scripts.append(("probe-" + fnd["id"], fnd["probe"]["mode"], fnd["probe"]["script"]))
+            pb = next((b for b in runnable if b.mode == fnd["probe"]["mode"]), None)
+            if pb:
+                scripts.append((0, "probe-" + fnd["id"], pb, [reset_event(pb)] + [l for l in fnd["probe"]["script"] if l.get("op") != "Reset"]))
 
     # ---- run the harness
     tdir = ctx.sub("traces")
+    stats = {}
 
     def one(item):
-        name, mode, lines = item
-        sp = os.path.join(tdir, name + ".script")
+        wave, name, b, lines = item
         tp = os.path.join(tdir, name + ".ndjson")
-        write_script(sp, lines)
-        run_script(ctx, drivers[mode], sp, tp)
+        write_script(os.path.join(tdir, name + ".script"), lines)
+        run_script(ctx, built[b.name], lines, tp, isolate=b.mode == "terminate", stats=stats)
         return tp
     with ThreadPoolExecutor(max_workers=max(2, core.NCPU // 2)) as ex:
         traces = list(ex.map(one, scripts))
-    for name, mode, lines in scripts:
+    for wave, name, b, lines in scripts:
         ctx.cov["traces_validated_against_impl"] += sum(1 for l in lines if l["op"] == "Reset")
-    for pref in ("s2c-throwing", "rnd-throwing", "rnd-unchecked"):
-        ss = [s for s in scripts if s[0].startswith(pref)]
+    for pref in ("throw-14", "default-14", "throw-nd-17"):
+        ss = [s for s in scripts if s[1].startswith(pref)]
         if ss:
-            ctx.sample({"script": [json.dumps(x) for x in ss[0][2][:10]]})
+            ctx.sample({"script": [json.dumps(x) for x in ss[0][3][:10]]})
+    if stats:
+        ctx.notes["driver_restarts"] = stats
 
-    # ---- validate every trace against L1
+    # ---- validate every trace against L1; second-wave traces are skipped once enough distinct violations are known
     cl = classify(findings)
     desync = []
 
     def cl2(ev, execution):
-        if ev.get("op") == "Desync":
+        if ev.get("res", {}).get("exc") == "desync":
             desync.append(ev)
             return "@desync"
         return cl(ev, execution)
-    core.validate_traces(ctx, "SpanTrace", "SpanTrace.cfg", traces, classify=cl2)
+    for wave in (0, 1):
+        tp = [t for t, s in zip(traces, scripts) if s[0] == wave]
+        if wave == 1 and len(set(signature(t) for _, t in ctx.violations[n_static:])) >= MAX_REPORT:
+            ctx.notes["traces_not_validated"] = "%d traces of the secondary builds were not validated: %d distinct violations were already found" % (
+                len(tp), MAX_REPORT)
+            break
+        core.validate_traces(ctx, "SpanTrace", "SpanTrace.cfg", tp, classify=cl2, max_restarts=3)
     ctx.known[:] = [k for k in ctx.known if k != "@desync"]
     if desync and not ctx.violations:
-        raise MachineryError("the driver lost track of a script although every earlier event conforms to L1: %s" % desync[0])
-    dedupe_violations(ctx)
-    ctx.cov["evaluations"] = ctx.cov["events_validated"]
+        raise MachineryError("the driver lost track of a script although every earlier event conforms to L1: %s" % json.dumps(desync[0])[:600])
+    if desync:
+        ctx.notes["desync_first_rejections"] = len(desync)
+    dedupe_violations(ctx, keep_first=n_static)
+    ctx.cov["evaluations"] += ctx.cov["events_validated"]
     ctx.log("validated %d events in %d traces (%d executions)" % (ctx.cov["events_validated"], len(traces), ctx.cov["traces_validated_against_impl"]))
+    return finish(ctx, q, builds)
 
+
+def finish(ctx, q, builds):
     n = 3 if q else 4
     return core.finish(
         ctx, "model_checking",
-        rule="TLC: L1 (parent cells, stack of windows, symbolic size arguments n / SIZE_MAX-d / dynamic_extent) exhaustive for "
-             "parents of 0..%d cells, stacks <= 2 expanded (views of views to depth 3), 4 memory kinds, both modes; every such "
-             "transition (all constructors, first/last/subspan with run-time and template arguments 0..n+1, SIZE_MAX-{0,1,2}, "
-             "static extents 0..%d, element access, writes, comparisons, as_bytes) replayed on real xtl::span objects in the "
-             "unchecked and the throwing build; TLC simulation walks; seeded random scripts (parents to 40 cells, depth 4+).  A "
-             "case is one call whose result and the projection of memory and all views are compared by TLC." % (n, 4 if q else 5),
-        assumptions=["views are kept as (extent, data(), size()) and re-materialised as span<int, E>(data, size) for the next call",
-                     "TCB_SPAN_TERMINATE_ON_CONTRACT_VIOLATION (the default without NDEBUG) is not run: a violation there is std::terminate",
-                     "the template forms of the non-member first/last/subspan, structured bindings and element types other than int are not modelled",
-                     "g++ builds do not issue first<0>()/last<0>() (ambiguous braced return in the header under g++ only)"],
+        rule="TLC: L1 (parent cells, stack of windows with extent and constness, symbolic size arguments n / SIZE_MAX-d / dynamic_extent, "
+             "modes unchecked / throwing / terminate) exhaustive for parents of 0..%d cells, stacks <= 2 expanded (views of views to depth 3), "
+             "5 memory kinds; the enumerated transitions (all constructors incl. const sources, make_span, C++17 deduction; member and non-member "
+             "first/last/subspan with run-time and template arguments 0..n+1, SIZE_MAX-{0,1,2}, static extents 0..%d; element access incl. get<N> "
+             "and structured bindings; writes through 11 paths; comparisons across extents and constness; as_bytes / as_writable_bytes) are "
+             "replayed on real xtl::span objects: all of them in the no-checking build%s, seeded samples in the other builds (%d builds: mode "
+             "macros x NDEBUG x C++14/17, element types int / signed char / double / 3-byte struct, -O0/-O1/-O2); TLC simulation walks; seeded "
+             "random scripts (parents to 40 cells, depth 4+).  The mode of every one of the 32 macro configurations is probed on 15 checked "
+             "entry points and compared with SpanMode.tla; %d type-level rows of SpanTypes.tla are compiled as static_asserts.  A case is one "
+             "call whose result and the projection of memory and all views are compared by TLC, one probe entry, or one type row."
+             % (n, 4 if q else 5, "" if q else " and the throwing build", len(builds), ctx.notes.get("type_table_rows", 0)),
+        assumptions=["views are kept as (extent, constness, data(), size()) and re-materialised as span<T, E>(data, size) for the next call",
+                     "terminate mode is observed in a child process per call: a child that ends in std::terminate or abort is the result 'terminated'",
+                     "the property does not say which mode a translation unit gets that defines none or several of the mode macros: the observed "
+                     "mode is compared with the documented default (terminate, or no checking under NDEBUG) as MODEL-DRIFT only, and the build is "
+                     "then held to L1 in the mode it is observed to be in",
+                     "builds without exception support (TCB_SPAN_NO_EXCEPTIONS, where at() cannot throw) and pre-C++14 builds are not run",
+                     "g++ builds do not issue first<0>()/last<0>() (ambiguous braced return in the header under g++ only)",
+                     "span<const T>(std::array<const T, N>&) is probed but not required (absent from P0122R7 and from this tree)"],
         exhaustive=False)
